@@ -74,7 +74,7 @@ impl HeaderVersion {
 //@end
 }
 /// the header fields as the bytes denote them (ASSUMED nom contract; le64_at = little-endian u64, desc_of = text up to the first NUL)
-pub uninterp spec fn le64_at(b: Seq<u8>, off: int) -> u64;
+//@include specs/codec64.rs.inc
 pub uninterp spec fn desc_of(b: Seq<u8>) -> Seq<char>;
 #[verifier::external_body]
 fn header_parser_w(input: &[u8]) -> (r: Result<(u64, u64, String), HeaderError>)
